@@ -16,6 +16,10 @@ from .specs_native import NATIVE  # noqa: F401
 # ----------------------------------------------------------------------------- symbolic readings
 def install(reg):
     SF = reg.spec_funcs
+    install_dict_specs(reg)
+    from pyvc import fsmodel
+    fsmodel.install(reg)
+    fsmodel.install_more(reg)
 
     def s_implies(p, a, b):
         return VBool(z3.Implies(p.truth(a), p.truth(b)))
@@ -62,3 +66,103 @@ def install(reg):
         xt = p.as_int(x)
         return VBool(z3.And(xt >= 26, xt <= 29))
     SF["free_piece_length_arg"] = s_free_pl
+
+
+def _dict_parts(p, d):
+    """(keys, has, map) terms of a dict-valued Val (heap dict or boxed)"""
+    if isinstance(d, VBox):
+        return PV.dkeys(d.t), PV.dhas(d.t), PV.dmap(d.t)
+    h = p.deref(d)
+    if isinstance(h, HDict):
+        t = p.dict_term(h)
+        return PV.dkeys(t), PV.dhas(t), PV.dmap(t)
+    raise Unsupported(f"dict expected, got {d!r}")
+
+
+def _str_t(p, v):
+    if isinstance(v, VStr):
+        return v.t
+    if isinstance(v, VBox):
+        return PV.sval(v.t)
+    # total reading: a non-string argument yields an unconstrained string (such reads are guarded by is_str)
+    return p.fresh("not_a_str", S)
+
+
+def install_dict_specs(reg):
+    SF = reg.spec_funcs
+
+    def _dom(p, d, kt):
+        h = p.deref(d)
+        if isinstance(h, HDict):
+            p.domain_fact(h, kt)
+
+    def s_named(p, args, f):
+        keys, has, mp = _dict_parts(p, args)
+        kt = p.key_term(f)
+        _dom(p, args, kt)
+        return VBool(z3.And(z3.Select(has, kt), z3.Not(PV.is_PNone(z3.Select(mp, kt)))))
+    SF["named"] = s_named
+
+    def s_cleared(p, args, f):
+        keys, has, mp = _dict_parts(p, args)
+        kt = p.key_term(f)
+        _dom(p, args, kt)
+        return VBool(z3.And(z3.Select(has, kt), z3.Select(mp, kt) == PV.PStr(z3.StringVal(""))))
+    SF["cleared"] = s_cleared
+
+    def s_key_index(p, d, k):
+        keys, has, mp = _dict_parts(p, d)
+        return VInt(p.engine.key_index_facts(p, keys, has, p.key_term(k)))
+    SF["key_index"] = s_key_index
+
+    def s_same_entry(p, d1, d2, k):
+        k1, h1, m1 = _dict_parts(p, d1)
+        k2, h2, m2 = _dict_parts(p, d2)
+        kt = p.key_term(k)
+        return VBool(z3.And(z3.Select(h1, kt) == z3.Select(h2, kt),
+                            z3.Implies(z3.Select(h1, kt), z3.Select(m1, kt) == z3.Select(m2, kt))))
+    SF["same_entry"] = s_same_entry
+
+    def s_keys_ascending(p, d):
+        keys, has, mp = _dict_parts(p, d)
+        return VBool(p.engine.uf("ascending", KEYSEQ, B)(keys))
+    SF["keys_ascending"] = s_keys_ascending
+
+    def s_is_dict(p, v):
+        if isinstance(v, VBox):
+            return VBool(PV.is_PDict(v.t))
+        return VBool(isinstance(p.deref(v), HDict))
+    SF["is_dict"] = s_is_dict
+
+    def s_is_str(p, v):
+        if isinstance(v, VBox):
+            return VBool(PV.is_PStr(v.t))
+        return VBool(isinstance(v, VStr))
+    SF["is_str"] = s_is_str
+
+    def s_is_list(p, v):
+        if isinstance(v, VBox):
+            return VBool(PV.is_PList(v.t))
+        return VBool(isinstance(p.deref(v), HList))
+    SF["is_list"] = s_is_list
+
+    def s_split_ws(p, s):
+        f = p.engine.uf("str_split", S, S, PVSEQ)
+        return VBox(PV.PList(f(_str_t(p, s), z3.StringVal(" \t\n*"))))
+    SF["split_ws"] = s_split_ws
+
+    def s_first(p, v):
+        if isinstance(v, VBox):
+            return VBox(PV.items(v.t)[0])
+        h = p.deref(v)
+        if isinstance(h, HList):
+            return p.list_get(h, z3.IntVal(0))
+        raise Unsupported("first()")
+    SF["first"] = s_first
+
+    def s_nonempty_list(p, v):
+        if isinstance(v, VBox):
+            return VBool(z3.And(PV.is_PList(v.t), z3.Length(PV.items(v.t)) > 0))
+        h = p.deref(v)
+        return VBool(p.list_len(h) > 0)
+    SF["nonempty_list"] = s_nonempty_list
